@@ -202,7 +202,49 @@ pub fn sinfo(args: &[&str]) -> Option<Vec<String>> {
             .iter()
             .map(|b| if *b { '1' } else { '0' })
             .collect();
-            vec![format!("ok:{}:{}", hex(i.name().as_bytes()), bits)]
+            // `get_auth_mechanism` for six preference lists
+            let prefs: [&[Mechanism]; 6] = [
+                &[Mechanism::Plain, Mechanism::Login, Mechanism::Xoauth2],
+                &[Mechanism::Login, Mechanism::Plain, Mechanism::Xoauth2],
+                &[Mechanism::Xoauth2, Mechanism::Login, Mechanism::Plain],
+                &[Mechanism::Xoauth2],
+                &[Mechanism::Login],
+                &[],
+            ];
+            let picks: String = prefs
+                .iter()
+                .map(|p| match i.get_auth_mechanism(p) {
+                    Some(Mechanism::Plain) => 'P',
+                    Some(Mechanism::Login) => 'L',
+                    Some(Mechanism::Xoauth2) => 'X',
+                    None => '-',
+                })
+                .collect();
+            vec![format!("ok:{}:{}:{}", hex(i.name().as_bytes()), bits, picks)]
+        }
+    })
+}
+
+
+/// `racc <s>`: the accessors of a parsed reply: is_positive, has_code(own code), has_code(another code), the code as a
+/// number, first_word, first_line
+pub fn racc(args: &[&str]) -> Option<Vec<String>> {
+    let s = unhex_str(args.first()?)?;
+    Some(match s.parse::<Response>() {
+        Err(_) => vec!["err".into()],
+        Ok(r) => {
+            let n: u16 = r.code().into();
+            let other = if n == 250 { 251 } else { 250 };
+            vec![format!(
+                "ok:{}:{}{}{}:{}:{}:{}",
+                code_str(r.code()),
+                r.is_positive() as u8,
+                r.has_code(n) as u8,
+                r.has_code(other) as u8,
+                n,
+                r.first_word().map(|w| hex(w.as_bytes())).unwrap_or("none".into()),
+                r.first_line().map(|w| hex(w.as_bytes())).unwrap_or("none".into()),
+            )]
         }
     })
 }
